@@ -166,6 +166,9 @@ type SegDesc struct {
 	HasSub        bool      `json:"has_sub,omitempty"`
 	SubNum        int       `json:"sub_num,omitempty"`
 	SubExp        int       `json:"sub_exp,omitempty"`
+	// Tail: bytes after the last field, inside descriptor_length (not canonical: used to build
+	// length-consistent but odd descriptors for the totality check)
+	Tail core.Hex `json:"tail,omitempty"`
 }
 
 // SubSegments reports whether the sub-segment fields are part of the encoding.
@@ -233,6 +236,7 @@ func (d SegDesc) Bytes() []byte {
 		if d.SubSegments() {
 			b = append(b, byte(d.SubNum), byte(d.SubExp))
 		}
+		b = append(b, d.Tail...)
 	}
 	b[1] = byte(len(b) - 2)
 	return b
